@@ -506,7 +506,9 @@ class Pipeline:
 
     def _current_cache(self) -> LRUCache | HybridCache | DiskCache | SimpleCache | None:
         """Return the cache used by the pipeline."""
-        if not isinstance(self.cache, SimpleCache) and (tg := task_graph()) is not None:
+        if (tg := task_graph()) is not None:
+            # Deferred nodes created while a task graph is recorded belong to that graph only:
+            # never serve (or keep) them through the pipeline's own, longer-lived cache.
             return tg.cache
         return self.cache
 
